@@ -65,6 +65,17 @@ class DangTracker(Tracker):
                     # the object itself goes away
                     pre = a.refname + "->"
                     return [frozenset(x for x in st if not x.startswith(pre))]
+            if n.callee not in self.dtors and st:
+                # a callee that is handed the object (or the address of the field) may well re-initialise it
+                drop = set()
+                for a in n.args():
+                    a_s = a.strip()
+                    b = base_var(a_s) if a_s.k in ("DeclRefExpr", "UnaryOperator", "MemberExpr") else None
+                    if b is not None and (a_s.k == "DeclRefExpr" or (a_s.k == "UnaryOperator" and a_s.op == "&")):
+                        pre = (b.refname or "") + "->"
+                        drop |= {x for x in st if x.startswith(pre)}
+                if drop:
+                    return [st - drop]
             if n.callee == "memset" and n.args():
                 a = n.args()[0].strip()
                 b = base_var(a)
